@@ -1,7 +1,7 @@
 (* C15 — deciding obligations (statements only). *)
 From Coq Require Import ZArith List Bool.
 From VF Require Import Base.RingOps Base.Mat Base.Tensor Base.Harness Base.K8 Gates.Families Sim.Ref
-  Xform.KakCanon Xform.KakCanonProofs.
+  Xform.KakCanon Xform.KakCanonProofs Xform.KakCount Xform.KakCountProofs.
 Import ListNotations.
 
 (* kak_canonicalize_vector reaches the canonical Weyl chamber for EVERY input (any rational multiple of pi/4:
@@ -92,3 +92,50 @@ Example C15_count_example :
   within_count [mkOp 2 true; mkOp 2 true; mkOp 2 true; mkOp 2 true] 3 = false /\
   within_count [mkOp 2 false] 3 = false.
 Proof. exact count_example. Qed.
+
+(* ---- minimal CNOT/CZ count (cirq.num_cnots_required) ---- *)
+(* the classes of the model on a canonical point, as Shende-Bullock-Markov Prop. III.1-III.3 read in Weyl coordinates *)
+Theorem C15_cz_class_spec : forall D x y z, (0 < D)%Z ->
+  (cz_class D (x, y, z) = 0%nat <-> (x = 0 /\ y = 0 /\ z = 0)%Z) /\
+  (cz_class D (x, y, z) = 1%nat <-> (x = D /\ y = 0 /\ z = 0)%Z) /\
+  (cz_class D (x, y, z) = 2%nat <-> (z = 0 /\ ~ (x = 0 /\ y = 0) /\ ~ (x = D /\ y = 0))%Z) /\
+  (cz_class D (x, y, z) = 3%nat <-> z <> 0%Z).
+Proof. exact cz_class_spec. Qed.
+Print Assumptions C15_cz_class_spec.
+(* the tolerance-aware validator the check applies to num_cnots_required: without tolerance it accepts exactly the class *)
+Theorem C15_cz_count_ok_exact : forall D v n, cz_count_ok D 0 0 0 v n = true <-> n = cz_class D v.
+Proof. exact cz_count_ok_exact. Qed.
+Print Assumptions C15_cz_count_ok_exact.
+(* any interaction built from two of the three Pauli pairs canonicalises onto the face z = 0: at most two CNOT/CZ *)
+Theorem C15_min_cz_count_zero_coord : forall D A a b c, (0 < D)%Z -> (0 < A)%Z -> (a = 0 \/ b = 0 \/ c = 0)%Z ->
+  min_cz_count D A (a, b, c) <= 2.
+Proof. exact min_cz_count_zero_coord. Qed.
+Print Assumptions C15_min_cz_count_zero_coord.
+Example C15_min_cz_count_examples :
+  min_cz_count 8 1 (0, 0, 0)%Z = 0 /\ min_cz_count 8 1 (16, -32, 0)%Z = 0 /\
+  min_cz_count 8 1 (8, 0, 0)%Z = 1 /\ min_cz_count 8 1 (0, -8, 16)%Z = 1 /\
+  min_cz_count 8 1 (8, 8, 0)%Z = 2 /\ min_cz_count 8 1 (8, 3, 0)%Z = 2 /\
+  min_cz_count 8 1 (4, 4, 0)%Z = 2 /\ min_cz_count 8 1 (3, 0, 0)%Z = 2 /\
+  min_cz_count 8 1 (8, 8, 8)%Z = 3 /\ min_cz_count 8 1 (8, 3, 1)%Z = 3 /\ min_cz_count 8 1 (5, 3, -1)%Z = 3.
+Proof. exact min_cz_count_examples. Qed.
+(* and two CNOTs do suffice there, for all (cos, sin) values: CNOT (exp(i x X) (x) exp(i z Z)) CNOT = exp(i(x XX + z ZZ)) *)
+Theorem C15_two_cnot_witness : forall K (O : Ops K), Laws O -> forall px pz : K * K,
+  two_cnot_circuit O px pz = interaction O (px, (k1 O, k0 O), pz).
+Proof. exact @two_cnot_witness. Qed.
+Print Assumptions C15_two_cnot_witness.
+(* what num_cnots_required looks at: trace(gamma(u)), gamma(u) = u YY u^T YY.  On exp(i(x XX + y YY + z ZZ)) it is
+   4 (cos 2x cos 2y cos 2z + i sin 2x sin 2y sin 2z), and single-qubit gates only contribute their determinants *)
+Theorem C15_gamma_trace_interaction : forall K (O : Ops K), Laws O -> forall px py pz : K * K,
+  trace4 O (gamma_m O (interaction O (px, py, pz)))
+  = kmul O (four O) (kadd O (kmul O (kmul O (cos2 O px) (cos2 O py)) (cos2 O pz))
+                            (kmul O (ki O) (kmul O (kmul O (sin2 O px) (sin2 O py)) (sin2 O pz)))).
+Proof. exact @gamma_trace_interaction. Qed.
+Print Assumptions C15_gamma_trace_interaction.
+Theorem C15_gamma_right_local : forall K (O : Ops K), Laws O -> forall u b1 b0 : matrix (K:=K), is44 u -> is22 b1 -> is22 b0 ->
+  gamma_m O (mmul O u (kron O b1 b0)) = mscale O (kmul O (det2 O b1) (det2 O b0)) (gamma_m O u).
+Proof. exact @gamma_right_local. Qed.
+Print Assumptions C15_gamma_right_local.
+Theorem C15_gamma_left_local_trace : forall K (O : Ops K), Laws O -> forall u a1 a0 : matrix (K:=K), is44 u -> is22 a1 -> is22 a0 ->
+  trace4 O (gamma_m O (mmul O (kron O a1 a0) u)) = kmul O (kmul O (det2 O a1) (det2 O a0)) (trace4 O (gamma_m O u)).
+Proof. exact @gamma_left_local_trace. Qed.
+Print Assumptions C15_gamma_left_local_trace.
